@@ -3,7 +3,7 @@
 # usage: tools/try_mutant.sh <patch.diff> <tier> <prop> [<prop>...] [-- extra check args]
 set -u
 HERE=$(cd "$(dirname "$0")/.." && pwd)
-patch=$1; tier=$2; shift 2
+patch=$(readlink -f "$1"); tier=$2; shift 2
 props=(); while [ $# -gt 0 ] && [ "$1" != "--" ]; do props+=("$1"); shift; done; [ $# -gt 0 ] && shift
 [ -z "$(git -C /repo status --porcelain)" ] || { echo "/repo working tree is not clean"; exit 2; }
 trap 'git -C /repo checkout -- . ; git -C /repo clean -fdq -- src yuvxyb-math/src tests 2>/dev/null' EXIT
